@@ -244,6 +244,36 @@ theorem inv4_step (n : Nat) (s s' : Sys) (hreach : Reachable n s) (h : Inv4 n s)
         · rw [hsame]; intro hc; exact ⟨rfl, hc⟩
         · rw [frole]; intro hc; cases hc
       · intro hc; exact ⟨rfl, hc⟩
+  | compact i b =>
+    refine inv4_frame n s _ h rfl rfl (fun x hx => hx) (fun c u li lt hm => hm) ?_
+    intro c; simp only [apply, setNode_nodes]; split
+    · rename_i hj; subst hj; intro hc; exact ⟨rfl, hc⟩
+    · intro hc; exact ⟨rfl, hc⟩
+  | takeSnap i k =>
+    refine inv4_frame n s _ h rfl rfl (fun x hx => hx) (fun c u li lt hm => hm) ?_
+    intro c; simp only [apply, setNode_nodes]; split
+    · rename_i hj; subst hj; intro hc; exact ⟨rfl, hc⟩
+    · intro hc; exact ⟨rfl, hc⟩
+  | sendIS i =>
+    refine inv4_frame n s _ h rfl rfl (fun x hx => hx) ?_ ?_
+    · intro c u li lt hm; simp only [apply]; exact List.mem_cons_of_mem _ hm
+    · intro c hc; exact ⟨rfl, hc⟩
+  | recvIS j ldr t idx iterm =>
+    have hf := handleIS_log (s.nodes j) (s.ghost.tl t) t idx iterm
+    simp only at hf
+    apply inv4_frame n s _ h
+    · simp only [apply]; exact ghost_ifa_tl _ _ _
+    · simp only [apply]; exact ghost_ifa_elected _ _ _
+    · intro x hx; simp only [apply]; rw [ghost_ifa_glogs]; exact hx
+    · intro c u li lt hm; simp only [apply]; split
+      · exact List.mem_cons_of_mem _ hm
+      · exact hm
+    · intro c; simp only [apply, setNode_nodes]; split
+      · rename_i hk; subst hk
+        rcases hf with ⟨hsame, _⟩ | ⟨_, frole, _⟩
+        · rw [hsame]; intro hc; exact ⟨rfl, hc⟩
+        · rw [frole]; intro hc; cases hc
+      · intro hc; exact ⟨rfl, hc⟩
   | advanceCommit i k Q =>
     refine inv4_frame n s _ h rfl rfl (fun x hx => hx) (fun c u li lt hm => hm) ?_
     intro c; simp only [apply, setNode_nodes]; split
